@@ -656,9 +656,49 @@ func ruleC09DimensionWalk(c *Ctx) {
 			dims = pa.Name()
 		}
 	}
-	restD := func(t *Term) bool {
-		return t.Op == "slice" && t.Args[0].Op == "param" && t.Args[0].Name == dims && t.Args[1].Name == "1" && t.Args[2].Name == "-"
+	// the dimensions still to be walked: the parameter itself (recursive form) or, when the tail calls were turned into
+	// a loop, the loop-carried variable that starts as the parameter and drops its first element on every round
+	var dimsParam, dataParam *ssa.Parameter
+	for _, pa := range f.Params {
+		if pa.Name() == dims {
+			dimsParam = pa
+		} else if dataParam == nil {
+			dataParam = pa
+		}
 	}
+	isRestOf := func(v ssa.Value, of ...ssa.Value) bool {
+		sl, ok := v.(*ssa.Slice)
+		if !ok || sl.High != nil || sl.Max != nil {
+			return false
+		}
+		if k, isK := constIntOf(sl.Low); !isK || k != 1 {
+			return false
+		}
+		for _, o := range of {
+			if o != nil && sl.X == o {
+				return true
+			}
+		}
+		return false
+	}
+	var loopDims *ssa.Phi
+	allInstrs(f, func(_ *ssa.BasicBlock, in ssa.Instruction) {
+		ph, ok := in.(*ssa.Phi)
+		if !ok || dimsParam == nil || !types.Identical(ph.Type(), dimsParam.Type()) {
+			return
+		}
+		fromParam, rest := false, true
+		for _, e := range ph.Edges {
+			if e == ssa.Value(dimsParam) {
+				fromParam = true
+			} else if !isRestOf(e, ph) {
+				rest = false
+			}
+		}
+		if fromParam && rest && len(ph.Edges) >= 2 {
+			loopDims = ph
+		}
+	})
 	var why []string
 	n := 0
 	allInstrs(f, func(_ *ssa.BasicBlock, in ssa.Instruction) {
@@ -667,10 +707,40 @@ func ruleC09DimensionWalk(c *Ctx) {
 			return
 		}
 		n++
-		if !restD(NewTB().Of(call.Common().Args[1])) {
+		var of []ssa.Value
+		of = append(of, dimsParam)
+		if loopDims != nil {
+			of = append(of, loopDims)
+		}
+		if !isRestOf(call.Common().Args[1], of...) {
 			why = append(why, "a recursive step does not continue with the remaining dimensions: "+NewTB().Of(call.Common().Args[1]).String())
 		}
 	})
+	if loopDims != nil && dataParam != nil {
+		// loop form: every round narrows the data (a range or an element of the array) and goes on with the rest
+		for _, in := range loopDims.Block().Instrs {
+			ph, ok := in.(*ssa.Phi)
+			if !ok || ph == loopDims {
+				continue
+			}
+			hasParam := false
+			for _, e := range ph.Edges {
+				if e == ssa.Value(dataParam) {
+					hasParam = true
+				}
+			}
+			if !hasParam {
+				continue
+			}
+			seen := map[ssa.Value]bool{}
+			for _, e := range ph.Edges {
+				if e != ssa.Value(dataParam) && !seen[e] {
+					seen[e] = true
+					n++
+				}
+			}
+		}
+	}
 	if n < 3 {
 		why = append(why, fmt.Sprintf("only %d recursive steps found (range, each, index expected)", n))
 	}
